@@ -159,9 +159,24 @@ def check_physics(ctx, name, spec, a, p, replay, history=()):
     return True
 
 
+# documented pins of the blocks, in the order of the matrix rows the expectations are written in: the physics is a statement about
+# *pins* ("from a0 to b0"), so the matrix is read through the pin table of the solved model, never by raw position
+DOC_PINS = {"Waveguide": ["a0", "b0"], "UserWaveguide": ["a0", "b0"], "BeamSplitter": ["a0", "a1", "b0", "b1"], "Splitter1x2": ["a0", "b0", "b1"],
+            "PhaseShifter": ["a0", "b0"], "PushPullPhaseShifter": ["a0", "b0", "a1", "b1"],
+            "PolRot": ["a0_pol0", "a0_pol1", "b0_pol0", "b0_pol1"], "Attenuator": ["a0", "b0"], "LinearAttenuator": ["a0", "b0"],
+            "Mirror": ["a0", "b0"], "PerfectMirror": ["a0"], "TH_PhaseShifter": ["a0", "b0"], "Splitter1x2Gen": ["a0", "b0", "b1"]}
+
+
 def check_point(ctx, name, spec, m, a, p, replay, k):
     try:
-        S = np.array(m.solve(**p).S)[0]
+        res = m.solve(**p)
+        S = np.array(res.S)[0]
+        doc = DOC_PINS.get(name.split(":")[0]) if ":" not in name else None
+        if doc is not None:
+            if sorted(q.name for q in res.pin_dic) != sorted(doc) or sorted(res.pin_dic.values()) != list(range(len(doc))):
+                ctx.violation(f"C09:pins:{name}", f"{name}: pins {sorted((q.name, i) for q, i in res.pin_dic.items())}, documented {doc} on distinct matrix rows", replay)
+                return False
+            S = np.array([[res.get_A(x, y) for y in doc] for x in doc])
     except Exception as e:  # noqa
         ctx.violation(f"C09:solve-raised:{name}", f"{name}{sorted((k, type(v).__name__) for k, v in a.items())} raised {type(e).__name__}: {str(e)[:60]}", replay)
         return False
@@ -293,7 +308,7 @@ def trace_monitor(ctx, rng):
         ctx.notes.append(f"block tracer: {type(e).__name__}: {str(e)[:200]}")
         return
     n = ctx.budget(12, 200)
-    for name, (args, desc, mat) in traced.items():
+    for name, (args, desc, mat, _pins) in traced.items():
         for i in range(n):
             env = {}
             for a in args:
